@@ -6,12 +6,17 @@ import sys, os, re, json, shutil
 src, lst, resdirs, needsf, off, base = sys.argv[1:7]
 rnd = sys.argv[7] if len(sys.argv) > 7 else "2"
 needs = json.load(open(needsf)) if os.path.exists(needsf) else {}
+auto = {}
+if off == "auto":
+    for d in os.listdir('/verif/seeded'):
+        pr, k = d.split('-')
+        auto[pr] = max(auto.get(pr, 0), int(k))
 for line in open(lst):
     parts = line.split()
     if len(parts) < 4: continue
     sid, demo, tgt, checks = parts[:4]
     prop, k = sid.split('-')
-    nid = f"{prop}-{int(k)+int(off)}"
+    nid = f"{prop}-{int(k)+(auto.get(prop, 0) if off == 'auto' else int(off))}"
     res, first = None, None
     for d in resdirs.split(','):
         p = os.path.join(d, sid + '.txt')
